@@ -80,4 +80,38 @@ theorem fn_callSocketUnregisterWrite (s : S) (sock : Option Nat) (now : Int) (su
       simp only [hso, sockId]
       simp [e0, hr', pure, Except.pure, bind, Except.bind]
 
+/-! ### `Client._sock_close` -/
+
+/-- the steps of `_sock_close()` executed on the model: dropping the socket attribute (the model's ghost flags about the
+connection go with it), the two helper calls, and the real close of the transport socket -/
+def runClose (s : S) : MEff → S
+  | .setInt "_sock" _ => { s with sock := none, ackd := false, discCalled := false }
+  | .call "_call_socket_unregister_write" [c] => s.callSocketUnregisterWrite (some (c - 1).toNat)
+  | .call "_call_socket_close" [c] =>
+    -- `_call_socket_close`: `with self._in_callback_mutex` (blocking) around the callback
+    if s.cfg.ext then (if s.inCb then s.emit (.deadlock "_in_callback_mutex") else s.emit (.skClose (c - 1).toNat)) else s
+  | .call "close" [c] => s.emit (.sclose (c - 1).toNat false)
+  | _ => s
+
+/-- **`Client._sock_close` as the source has it now = the model's `sockClose`**: nothing without a socket; otherwise the
+socket attribute is cleared FIRST (so that nothing reached from the callbacks can write to or close this socket again), then
+the write registration is withdrawn, then on_socket_close runs, then the transport socket is really closed - the order C16's
+trace theorem (`c16_trace`: no registration outstanding at close; open/close alternate) depends on -/
+theorem fn_sockClose (s : S) (now : Int) :
+    ∃ effs, Gen.Fn.SockCb.sockClose (sockId s.sock) now = .ok effs ∧ effs.foldl runClose s = s.sockClose := by
+  unfold Gen.Fn.SockCb.sockClose S.sockClose
+  cases hs : s.sock with
+  | none => exact ⟨[], by simp [sockId, pure, Except.pure], by simp⟩
+  | some c =>
+    have e0 : ((c : Int) + 1 != 0) = true := by simp; omega
+    refine ⟨[.setInt "_sock" 0, .call "_call_socket_unregister_write" [(c : Int) + 1], .call "_call_socket_close" [(c : Int) + 1],
+      .call "close" [(c : Int) + 1]], ?_, ?_⟩
+    · simp [sockId, e0, pure, Except.pure, bind, Except.bind]
+    · have hcfg : ∀ t : S, (t.callSocketUnregisterWrite (some c)).cfg = t.cfg ∧ (t.callSocketUnregisterWrite (some c)).inCb = t.inCb := by
+        intro t
+        unfold S.callSocketUnregisterWrite
+        simp only [Option.or_some]
+        cases t.regWrite <;> cases t.cfg.ext <;> simp [S.emit]
+      simp [runClose]
+
 end Paho.FnEq
